@@ -34,6 +34,65 @@ def sched_classes(prog):
 # ------------------------------------------------------------------------------
 # R01.1  single writer of occupancy
 #
+def _const_test(e):
+    """truth of a test that only compares literals (True / False), None when
+    it depends on anything else"""
+    if isinstance(e, ast.Constant):
+        return bool(e.value)
+    if isinstance(e, ast.UnaryOp) and isinstance(e.op, ast.Not):
+        v = _const_test(e.operand)
+        return None if v is None else not v
+    if isinstance(e, ast.BoolOp):
+        vs = [_const_test(v) for v in e.values]
+        if isinstance(e.op, ast.And):
+            return False if False in vs else None if None in vs else True
+        return True if True in vs else None if None in vs else False
+    if isinstance(e, ast.Compare) and len(e.ops) == 1 and \
+            isinstance(e.left, ast.Constant) and \
+            isinstance(e.comparators[0], ast.Constant) and \
+            isinstance(e.ops[0], (ast.Eq, ast.NotEq)):
+        same = type(e.left.value) is type(e.comparators[0].value) and \
+            e.left.value == e.comparators[0].value
+        return same if isinstance(e.ops[0], ast.Eq) else not same
+    return None
+
+
+def _dead_ids(fnode):
+    """ids of the ast nodes below the arm of an `if` that can never run
+    because the test compares two literals (the table expansion of the
+    normalised views leaves such chains behind)"""
+    dead = set()
+    for n in walk(fnode, nested=True):
+        if not isinstance(n, ast.If):
+            continue
+        v = _const_test(n.test)
+        if v is None:
+            continue
+        for s in (n.orelse if v else n.body):
+            for x in ast.walk(s):
+                dead.add(id(x))
+    return dead
+
+
+def _live_alias(al, mname, f, name, dead):
+    """some binding of the local `name` that can run gives it a part of the
+    root object (or it is a parameter that receives one)"""
+    if name in f.params:
+        return True
+    for n in walk(f.node, nested=True):
+        if id(n) in dead:
+            continue
+        if isinstance(n, ast.Assign):
+            if any(name in stores_in_target(t) for t in n.targets) and \
+                    al.is_rooted_expr(mname, n.value):
+                return True
+        elif isinstance(n, (ast.For, ast.comprehension)):
+            if name in stores_in_target(n.target) and \
+                    al.is_rooted_expr(mname, n.iter):
+                return True
+    return False
+
+
 def r01_1(prog, rep, rid='R01.1', extra_classes=()):
     rep.rule(rid, 'only _change_slot_states writes through self.nodes '
              '(occupancy has a single owner; the search is read-only)',
@@ -44,9 +103,19 @@ def r01_1(prog, rep, rid='R01.1', extra_classes=()):
         al = I.Aliases(prog, K, methods, 'self.nodes')
         for mname, f in sorted(methods.items()):
             rep.saw(f)
+            dead = None
             for kind, target, stmt in I.stores(f.node, nested=True):
                 if not al.is_rooted_expr(mname, target):
                     continue
+                r = root_name(target)
+                if r and r != 'self' and mname != '_change_slot_states':
+                    # the alias set is flow insensitive: a name only counts
+                    # when a binding that can run makes it a part of a node
+                    if dead is None:
+                        dead = _dead_ids(f.node)
+                    if id(stmt) in dead or \
+                            not _live_alias(al, mname, f, r, dead):
+                        continue
                 what = '%s: %s writes %s' % (K.name, f.qual, short(target, 60))
                 if mname == '_change_slot_states':
                     rep.ok(rid, f, what, f.loc(stmt))
@@ -467,7 +536,39 @@ def debited_kinds(prog, K):
         for k in KINDS:
             if "['%s']" % k in text:
                 kinds.setdefault(k, stmt)
+        # node[kind][..] = .. / node[kind] += .. below `for kind in ('cores',
+        # 'gpus')`: the store writes every kind the literal loop names
+        for x in walk(target):
+            if isinstance(x, ast.Subscript) and isinstance(x.slice, ast.Name):
+                for k in _literal_loop_values(f, x.slice.id) or ():
+                    if k in KINDS:
+                        kinds.setdefault(k, stmt)
     return f, kinds
+
+
+def _literal_loop_values(f, name):
+    """the constants `name` ranges over when its only bindings are `for name
+    in (<literals>)` loops; None otherwise"""
+    vals = []
+    for n in walk(f.node, nested=True):
+        tgts = []
+        if isinstance(n, ast.Assign):
+            tgts = n.targets
+        elif isinstance(n, (ast.AugAssign, ast.AnnAssign, ast.comprehension)):
+            tgts = [n.target]
+        elif isinstance(n, ast.For):
+            if name in stores_in_target(n.target):
+                if isinstance(n.target, ast.Name) and \
+                        isinstance(n.iter, (ast.Tuple, ast.List)) and \
+                        all(isinstance(x, ast.Constant) for x in n.iter.elts):
+                    vals += [x.value for x in n.iter.elts]
+                    continue
+                return None
+        if any(name in stores_in_target(t) for t in tgts):
+            return None
+    if name in f.params:
+        return None
+    return vals or None
 
 
 def r01_4(prog, rep, rid='R01.4'):
@@ -531,6 +632,25 @@ def pick_sites(prog, f, g, d, kinds_loc):
                         isinstance(t.slice, ast.Constant) and \
                         t.slice.value in flows:
                     flows[t.slice.value] |= ed.expr_depends(n.value) & sliced
+    # a local standing for the slot's own list (`picked = slot['gpus']`, the
+    # base not being the node that is searched): appending to it records a
+    # pick just as appending to `slot['gpus']` does
+    searched = {v.split('[')[0].split('.')[0] for v in kinds_loc.values()}
+    part_of = {}
+    for n in walk(f.node):
+        if isinstance(n, ast.Assign) and len(n.targets) == 1 and \
+                isinstance(n.targets[0], ast.Name):
+            v = n.value
+            k = None
+            if isinstance(v, ast.Subscript) and \
+                    isinstance(v.slice, ast.Constant) and \
+                    v.slice.value in flows and I.is_path(v.value) and \
+                    root_name(v.value) not in searched:
+                k = v.slice.value
+            part_of.setdefault(n.targets[0].id, set()).add(k)
+    for nm, ks in part_of.items():
+        if len(ks) == 1 and None not in ks:
+            flows[next(iter(ks))].add(nm)
     out = []
     for c in calls_in(f.node):
         if not (isinstance(c.func, ast.Attribute) and c.func.attr == 'append'):
@@ -1110,6 +1230,40 @@ def r01_9(prog, rep, rid='R01.9'):
 # ------------------------------------------------------------------------------
 # R01.10  the node that is marked is the node the slot names
 #
+def _only_def(f, e):
+    """the access path a plain local stands for when `name = <path>` is its
+    only binding in the function (a hoisted `want = slot['node_index']`);
+    anything else is returned as it is"""
+    for _ in range(4):
+        if not isinstance(e, ast.Name) or e.id in f.params:
+            return e
+        binds = []
+        for n in walk(f.node, nested=True):
+            if isinstance(n, ast.Assign):
+                for t in n.targets:
+                    if e.id in stores_in_target(t):
+                        binds.append(n if isinstance(t, ast.Name) and
+                                     len(n.targets) == 1 else None)
+            elif isinstance(n, (ast.AugAssign, ast.AnnAssign)):
+                if e.id in stores_in_target(n.target):
+                    binds.append(None)
+            elif isinstance(n, (ast.For, ast.comprehension)):
+                if e.id in stores_in_target(n.target):
+                    binds.append(None)
+            elif isinstance(n, ast.With):
+                for it in n.items:
+                    if it.optional_vars is not None and \
+                            e.id in stores_in_target(it.optional_vars):
+                        binds.append(None)
+            elif isinstance(n, ast.NamedExpr) and n.target.id == e.id:
+                binds.append(None)
+        if len(binds) != 1 or binds[0] is None or \
+                not I.is_path(binds[0].value):
+            return e
+        e = binds[0].value
+    return e
+
+
 def r01_10(prog, rep, rid='R01.10'):
     rep.rule(rid, '_change_slot_states finds the node by comparing its index '
              "field with the slot's node_index (nodes are addressed by index, "
@@ -1196,7 +1350,8 @@ def r01_10(prog, rep, rid='R01.10'):
                         # `==` leaves the loop on its true edge, `!=` (early
                         # continue form) on its false edge
                         match = 'T' if isinstance(n.ops[0], ast.Eq) else 'F'
-                        sides = {unparse(n.left), unparse(n.comparators[0])}
+                        sides = {unparse(_only_def(f, n.left)),
+                                 unparse(_only_def(f, n.comparators[0]))}
                         if "%s['index']" % nv in sides and any(
                                 x.endswith("['node_index']") for x in sides):
                             # the match leaves the loop
@@ -1643,7 +1798,9 @@ def _request_params(f, d, kind, nodevar):
     a slot it builds ({'lfs': lfs_per_slot, ..} / Slot(lfs=..))"""
     ed = _explicit_deps(d)
     vals = []
-    for n in walk(f.node):
+    # (a local closure that builds the slot reads the parameters of the
+    # enclosing search by name: nested bodies are part of the search)
+    for n in walk(f.node, nested=True):
         if isinstance(n, ast.Dict):
             for k, v in zip(n.keys, n.values):
                 if isinstance(k, ast.Constant) and k.value == kind:
@@ -3313,6 +3470,444 @@ def r01_16(prog, rep, rid='R01.16'):
 
 
 # ------------------------------------------------------------------------------
+# R01.17  an occupancy store runs once per element it is computed from
+#
+def _free_names(e, bound=frozenset()):
+    """names an expression reads, without those a comprehension inside the
+    expression binds itself"""
+    if isinstance(e, ast.Name):
+        if isinstance(e.ctx, ast.Load) and e.id not in bound:
+            yield e.id
+        return
+    if isinstance(e, ast.Lambda):
+        return
+    if isinstance(e, (ast.ListComp, ast.SetComp, ast.GeneratorExp,
+                      ast.DictComp)):
+        b = set(bound)
+        for gen in e.generators:
+            yield from _free_names(gen.iter, frozenset(b))
+            b |= set(stores_in_target(gen.target))
+            for c in gen.ifs:
+                yield from _free_names(c, frozenset(b))
+        for part in ([e.key, e.value] if isinstance(e, ast.DictComp)
+                     else [e.elt]):
+            yield from _free_names(part, frozenset(b))
+        return
+    for c in ast.iter_child_nodes(e):
+        if isinstance(c, (ast.expr, ast.keyword)):
+            yield from _free_names(c, bound)
+
+
+def _loops_behind(res, exprs, nid, elementwise=True):
+    """ids of the `for` heads whose loop variable the values of `exprs`
+    (evaluated at cfg node nid) are taken from - directly or through locals
+    (reaching definitions), including the loops the iterated expressions are
+    themselves taken from.
+
+    elementwise: only chains on which the value IS one element of the loop -
+    not a sum built up over the iterations (`total += x.amount`) and not an
+    element picked by a test inside the loop (`if ..: chosen = x`).
+    Otherwise every loop that has any influence counts, also through
+    accumulation, selection and loop carried locals."""
+    g = res.g
+    out = set()
+    seen = set()
+    todo = [(e, nid) for e in exprs]
+
+    def picked(n):
+        # the definition is control dependent on a test inside a loop
+        return any(set(g.nodes[t].loops) & set(n.loops)
+                   for t, lab in guards(g, n.id))
+
+    while todo:
+        e, at = todo.pop()
+        for nm in _free_names(e):
+            if (nm, at) in seen:
+                continue
+            seen.add((nm, at))
+            for n, v in res.defs(nm, at):
+                if n.kind == 'for':
+                    out.add(n.id)
+                    todo.append((n.ast.iter, n.id))
+                    continue
+                if isinstance(n.ast, ast.AugAssign):
+                    if elementwise:
+                        continue
+                    todo.append((n.ast.value, n.id))
+                    todo.append((_load(n.ast.target), n.id))
+                elif elementwise and picked(n):
+                    continue
+                elif v is not None:
+                    todo.append((v, n.id))
+                elif isinstance(n.ast, ast.Assign):
+                    todo.append((n.ast.value, n.id))
+                if not elementwise:
+                    out |= {h for h in n.loops if g.nodes[h].kind == 'for'}
+    return out
+
+
+def _plain_amount(e):
+    """the operand of an augmented store is a value as it is read (a path,
+    possibly cast), not a signed / scaled expression"""
+    while isinstance(e, ast.Call) and isinstance(e.func, ast.Name) and \
+            e.func.id in ('int', 'float') and len(e.args) == 1 and \
+            not e.keywords:
+        e = e.args[0]
+    return I.is_path(e)
+
+
+def _directions(res, stmt, K):
+    """what a store below a node does to the node's free resources:
+    'take' (marks busy / debits), 'give' (marks free / credits) or both (a
+    state or signed amount decided elsewhere)"""
+    both = {'take', 'give'}
+    if not isinstance(stmt, ast.AugAssign) or \
+            not isinstance(stmt.op, (ast.Add, ast.Sub)) or \
+            not _plain_amount(stmt.value):
+        return both
+    vals = {K[1]} if K[0] == 'c' else _const_values(res, K)
+    if not vals:
+        return both
+    add = isinstance(stmt.op, ast.Add)
+    if vals <= {'cores', 'gpus'}:         # occupation: += occupies
+        return {'take'} if add else {'give'}
+    if vals <= {'lfs', 'mem'}:            # free amount: -= occupies
+        return {'give'} if add else {'take'}
+    return both
+
+
+def r01_17(prog, rep, rid='R01.17'):
+    rep.rule(rid, 'occupancy writers: a store that takes its index / amount '
+             'from the elements of a loop lies in the body of that loop (every '
+             'core / gpu of the slot is marked, not only the last), and a '
+             'store that gives resources back is not repeated by a loop it '
+             'takes nothing from', minimum=24)
+    for f, kf in _kind_writers(prog):
+        rep.saw(f)
+        res = kf.res
+        g = res.g
+        stores = kf.stores()
+        if not stores:
+            raise AnalysisError('UNRECOGNISED-IDIOM %s: no store below a node '
+                                'object' % f.where)
+
+        def leaves_early(L):
+            return any(isinstance(m.ast, ast.Break) and m.kind == 'stmt' and
+                       m.loops and m.loops[-1] == L for m in g.nodes)
+
+        for stmt, target, nid, K, below in stores:
+            kt = _key_text(K)
+            dirs = _directions(res, stmt, K)
+            operands = list(below) + [stmt.value]
+            if K[0] == 'v':
+                operands.append(ast.Name(id=K[1], ctx=ast.Load()))
+            behind = _loops_behind(res, operands, nid)
+            # every element: the store is inside each loop it draws from
+            outside = [L for L in sorted(behind)
+                       if nid not in g.loop_body[L] and not leaves_early(L)]
+            if 'take' not in dirs:
+                outside = []
+            L = outside[0] if outside else None
+            la = g.nodes[L].ast if L is not None else None
+            rep.check(not outside, rid, f,
+                      '%s: `%s` runs for every element of the loop(s) it '
+                      'takes its index / amount from (%d)'
+                      % (f.qual, short(stmt, 50), len(behind)),
+                      construct='%s:%s:%s:each' % (f.qual, kt,
+                                                   _store_op(stmt)),
+                      message='%s: `%s` takes its index / amount from the '
+                      'variable of `for %s in %s` but is not part of that '
+                      'loop: it runs once, after the loop, with the last '
+                      'element only.  The other %s of the slot stay free on '
+                      'the node although the task holds them, and are handed '
+                      'to the next task' % (
+                          f.qual, short(stmt, 60),
+                          short(la.target, 20) if la is not None else '',
+                          short(la.iter, 30) if la is not None else '', kt),
+                      loc=f.loc(stmt),
+                      history='two requests for 2 cores per rank on one free '
+                      '4 core node: the first slot [0, 1] marks core 1 only; '
+                      'the second search finds cores [0, 2]: core 0 is held by '
+                      'two tasks')
+            # once: a crediting `+=` / `-=` is not repeated by a loop that
+            # has nothing to do with it
+            if not isinstance(stmt, ast.AugAssign):
+                continue
+            around = [h for h in g.nodes[nid].loops
+                      if g.nodes[h].kind == 'for']
+            if not around:
+                rep.ok(rid, f, '%s: `%s` is not inside a loop'
+                       % (f.qual, short(stmt, 50)), f.loc(stmt))
+                continue
+            tests = [g.nodes[t].ast for t, lab in guards(g, nid)
+                     if g.nodes[t].kind == 'test']
+            drawn = _loops_behind(res, [_load(target), stmt.value] + tests,
+                                  nid, elementwise=False)
+            extra = [h for h in around if h not in drawn]
+            if 'give' not in dirs:
+                extra = []
+            ha = g.nodes[extra[0]].ast if extra else None
+            rep.check(not extra, rid, f,
+                      '%s: `%s` depends on every loop that repeats it'
+                      % (f.qual, short(stmt, 50)),
+                      construct='%s:%s:%s:once' % (f.qual, kt,
+                                                   _store_op(stmt)),
+                      message='%s: `%s` gives %s back to the node inside '
+                      '`for %s in %s`, from which neither the target nor the '
+                      'amount is taken: the same amount is credited once per '
+                      'iteration, the node shows more free %s than it has '
+                      'and the search places tasks beyond its capacity' % (
+                          f.qual, short(stmt, 60), kt,
+                          short(ha.target, 20) if ha is not None else '',
+                          short(ha.iter, 30) if ha is not None else '', kt),
+                      loc=f.loc(stmt),
+                      history='a slot with 2 gpus and lfs 512 on a node with '
+                      'lfs 1024 is released: 1024 is credited; two tasks '
+                      'asking for lfs 768 each are then both placed on that '
+                      'node')
+
+
+# ------------------------------------------------------------------------------
+# R01.18  the application-level node list is one object per pilot
+#
+PILOT = ('pilot.py', 'Pilot')
+NLIST = ('resource_config.py', 'NodeList')
+
+
+class _CacheTruth(_Truth):
+    """_Truth which also decides `x is None` / `x is not None` / `x == None`
+    for an x whose truth is known to be True"""
+
+    def ev(self, e, nid, asg, depth=0):
+        if isinstance(e, ast.Compare) and len(e.ops) == 1 and \
+                isinstance(e.comparators[0], ast.Constant) and \
+                e.comparators[0].value is None and \
+                isinstance(e.ops[0], (ast.Is, ast.IsNot, ast.Eq, ast.NotEq)):
+            v = _Truth.ev(self, e.left, nid, asg, depth + 1)
+            if v is True:
+                return isinstance(e.ops[0], (ast.IsNot, ast.NotEq))
+            return None
+        return _Truth.ev(self, e, nid, asg, depth)
+
+
+def _self_attr(e):
+    """attribute name of `self.<name>` / getattr(self, '<name>'[, None])"""
+    if isinstance(e, ast.Attribute) and isinstance(e.value, ast.Name) and \
+            e.value.id == 'self':
+        return e.attr
+    if isinstance(e, ast.Call) and isinstance(e.func, ast.Name) and \
+            e.func.id == 'getattr' and len(e.args) in (2, 3) and \
+            isinstance(e.args[0], ast.Name) and e.args[0].id == 'self' and \
+            isinstance(e.args[1], ast.Constant) and \
+            isinstance(e.args[1].value, str) and (
+                len(e.args) == 2 or (isinstance(e.args[2], ast.Constant) and
+                                     not e.args[2].value)):
+        return e.args[1].value
+    return None
+
+
+def r01_18(prog, rep, rid='R01.18'):
+    rep.rule(rid, 'Pilot.nodelist: the NodeList that carries the application-'
+             'level occupancy is built once per pilot - a fresh NodeList is '
+             'kept in an attribute of the pilot, is only built while that '
+             'attribute is empty, the attribute is what later accesses return, '
+             'and nothing else re-binds it', minimum=4)
+    pilot = prog.cls(*PILOT)
+    nl = prog.cls(*NLIST)
+    names = {nl.name} | {k.name for k in prog.subclasses(nl, strict=True)}
+    f = pilot.methods.get('nodelist')
+    if f is None:
+        raise AnalysisError('anchor Pilot.nodelist not found')
+    rep.saw(f)
+    res = _Resolver(f)
+    g = res.g
+
+    def builds(fn, depth=0):
+        """fn returns a NodeList it constructs"""
+        r2 = _Resolver(fn)
+        for n in r2.g.stmt_nodes():
+            if n.kind == 'stmt' and isinstance(n.ast, ast.Return) and \
+                    n.ast.value is not None:
+                v, _ = r2.single(n.ast.value, n.id)
+                if is_build(fn, v, depth + 1):
+                    return True
+        return False
+
+    def is_build(fn, c, depth=0):
+        if not isinstance(c, ast.Call):
+            return False
+        if dotted(c.func).split('.')[-1] in names:
+            return True
+        if depth < 2 and dotted(c.func).startswith('self.'):
+            callee = prog.resolve_call(fn, c)
+            if callee is not None and callee is not fn:
+                return builds(callee, depth)
+        return False
+
+    sites = []
+    for c in calls_in(f.node):
+        if is_build(f, c) and id(c) in res.smap:
+            sites.append((res.smap[id(c)], c))
+    if not sites:
+        raise AnalysisError('UNRECOGNISED-IDIOM %s: no NodeList is built here'
+                            % f.where)
+    returns = [n for n in g.stmt_nodes() if n.kind == 'stmt' and
+               isinstance(n.ast, ast.Return) and n.ast.value is not None and
+               not (isinstance(n.ast.value, ast.Constant) and
+                    n.ast.value.value is None)]
+    hist = ('pilot.nodelist.find_slots(RankRequirements(n_cores=1, lfs=600)) '
+            'for two tasks on one node with lfs 1000: each access works on a '
+            'NodeList whose nodes start at the full lfs / mem again, both '
+            'requests succeed, and the tasks submitted with these td.slots '
+            'hold 1200 lfs on a 1000 node')
+    attrs = set()
+    kept_stores = set()
+    held = {}                   # site node id -> local name that holds it
+    for n, c in sites:
+        st = n.ast
+        tgt = _single_target(st) if isinstance(st, (ast.Assign,
+                                                    ast.AnnAssign)) else None
+        a = _self_attr(tgt) if tgt is not None and st.value is c else None
+        if a is not None:
+            attrs.add(a)
+            kept_stores.add(n.id)
+            rep.ok(rid, f, 'the NodeList built by `%s` is kept in self.%s'
+                   % (short(c, 40), a), f.loc(st))
+            continue
+        keep = []
+        if isinstance(tgt, ast.Name) and st.value is c:
+            held[n.id] = tgt.id
+            for m in g.stmt_nodes():
+                if m.kind == 'stmt' and isinstance(m.ast, ast.Assign) and \
+                        len(m.ast.targets) == 1 and \
+                        _self_attr(m.ast.targets[0]) is not None and \
+                        isinstance(m.ast.value, ast.Name) and \
+                        m.ast.value.id == tgt.id and \
+                        res.def_ids(tgt.id, m.id) == frozenset([n.id]):
+                    keep.append(m)
+        elif not (isinstance(st, ast.Return) and st.value is c):
+            raise AnalysisError('UNRECOGNISED-IDIOM %s: what happens to the '
+                                'NodeList built by `%s`' % (f.where,
+                                                            short(st, 60)))
+        if not keep and n.id in held:
+            # kept some other way (setattr, a container of the pilot, handed
+            # to a call)?  then this rule does not know where it lives
+            for x in walk(f.node):
+                esc = []
+                if isinstance(x, ast.Call):
+                    esc = list(x.args) + [k.value for k in x.keywords]
+                elif isinstance(x, ast.Assign) and not all(
+                        isinstance(t, ast.Name) for t in x.targets):
+                    esc = [x.value]
+                elif isinstance(x, (ast.Yield, ast.YieldFrom)):
+                    esc = [x.value] if x.value is not None else []
+                if any(isinstance(y, ast.Name) and y.id == held[n.id]
+                       for e in esc for y in walk(e)):
+                    raise AnalysisError(
+                        'UNRECOGNISED-IDIOM %s: the NodeList built by `%s` '
+                        'is passed on by `%s`' % (f.where, short(c, 40),
+                                                  short(x, 50)))
+        lost = not keep
+        for r in returns:
+            if r.id != n.id and r.id in g.reachable(n.id) and not must_pass(
+                    g, n.id, r.id, [m.id for m in keep], skip_exc=True):
+                lost = True
+        if isinstance(st, ast.Return):
+            lost = True
+        for m in keep:
+            attrs.add(_self_attr(m.ast.targets[0]))
+            kept_stores.add(m.id)
+        rep.check(not lost, rid, f, 'the NodeList built by `%s` is kept in an '
+                  'attribute of the pilot before it is returned'
+                  % short(c, 40), construct='nodelist:kept',
+                  message='%s: the NodeList built by `%s` is handed out '
+                  'without being kept in an attribute of the pilot (on some '
+                  'path to a return): the next access builds another one, on '
+                  'which every node has its full lfs / mem again and - after a '
+                  'copy of the resource details - free cores'
+                  % (f.qual, short(c, 40)), loc=f.loc(st), history=hist)
+    if len(attrs) != 1:
+        if attrs:
+            raise AnalysisError('UNRECOGNISED-IDIOM %s: the NodeList is kept '
+                                'in several attributes %s' % (f.where,
+                                                              sorted(attrs)))
+        return
+    A = next(iter(attrs))
+
+    # built only while the attribute is empty
+    def atom(e, nid):
+        return 'cache' if _self_attr(e) == A else None
+    truth = _CacheTruth(res, atom)
+    live = truth.reach({'cache': True})
+    for n, c in sites:
+        rep.check(n.id not in live, rid, f, '`%s` is only reached while '
+                  'self.%s is empty' % (short(c, 40), A),
+                  construct='nodelist:guard',
+                  message='%s: `%s` is reached although self.%s already holds '
+                  'the node list (no test of self.%s that the filled attribute '
+                  'fails lies on the way): the list kept in self.%s - with '
+                  'the occupancy of all placements handed out so far - is '
+                  'replaced by a fresh one'
+                  % (f.qual, short(c, 40), A, A, A), loc=f.loc(n.ast),
+                  history=hist)
+    # what is returned is the kept object
+    for r in returns:
+        okr = True
+        why = ''
+        todo = [(r.ast.value, r.id)]
+        seen = set()
+        while todo and okr:
+            e, at = todo.pop()
+            e, at = res.single(e, at)
+            a = _self_attr(e)
+            if a is not None:
+                if a != A:
+                    okr, why = False, 'self.%s' % a
+                continue
+            if isinstance(e, ast.Call) and any(e is c for n, c in sites):
+                continue
+            if isinstance(e, ast.Constant) and e.value is None:
+                continue
+            if isinstance(e, ast.Name) and (e.id, at) not in seen:
+                seen.add((e.id, at))
+                ds = res.defs(e.id, at)
+                if ds and all(v is not None for n, v in ds):
+                    todo += [(v, n.id) for n, v in ds]
+                    continue
+            raise AnalysisError('UNRECOGNISED-IDIOM %s: what `%s` returns'
+                                % (f.where, short(r.ast, 50)))
+        rep.check(okr, rid, f, '`%s` returns what self.%s holds'
+                  % (short(r.ast, 40), A), construct='nodelist:return',
+                  message='%s: the NodeList is kept in self.%s but `%s` '
+                  'returns %s: the caller does not work on the list that '
+                  'carries the occupancy of the earlier placements'
+                  % (f.qual, A, short(r.ast, 40), why), loc=f.loc(r.ast),
+                  history=hist)
+    # nothing else re-binds the attribute
+    others = []
+    for mname, m in sorted(pilot.methods.items()):
+        for kind, target, stmt in I.stores(m.node, nested=True):
+            if kind == 'mutate' or _self_attr(target) != A:
+                continue
+            if mname == '__init__' and m is not f:
+                continue
+            if m is f and id(stmt) in res.smap and \
+                    res.smap[id(stmt)].id in kept_stores:
+                continue
+            others.append((m, stmt))
+    for m, stmt in others:
+        rep.bad(rid, m, stmt, '%s: `%s` re-binds self.%s, the attribute in '
+                'which Pilot.nodelist keeps the NodeList: the next access '
+                'builds a fresh list and the occupancy of the placements '
+                'handed out so far is forgotten' % (m.qual, short(stmt, 50),
+                                                    A),
+                m.loc(stmt), history=hist)
+    if not others:
+        rep.ok(rid, pilot.name, 'self.%s is bound only in __init__ and where '
+               'Pilot.nodelist keeps the list it built' % A, f.loc())
+
+
+# ------------------------------------------------------------------------------
 #
 def run(prog, rep, tier):
     rep.decided = ('single writer of node occupancy (only _change_slot_states '
@@ -3324,7 +3919,10 @@ def run(prog, rep, tier):
         'is filtered; agent/service nodes are moved out of the list; Node '
         '(application-level finder) writes under its lock and tests lfs/mem; '
         'the lfs/mem cap of the slot count can only be bypassed by a zero '
-        'request; Node() keeps the DOWN marker of blocked cores/gpus.')
+        'request; Node() keeps the DOWN marker of blocked cores/gpus; the '
+        'occupancy writers book every core / gpu of a slot (no store left '
+        'behind its loop) and credit once; Pilot.nodelist builds the '
+        'application-level NodeList once per pilot and keeps it.')
     rep.undecided = ('arithmetic adequacy of slots_per_node for all numeric '
         'inputs; overlapping application-supplied placements (known finding '
         'K1); real interleavings of the scheduler process and its callbacks.')
@@ -3351,6 +3949,8 @@ def run(prog, rep, tier):
     rep.attempt(r01_14, prog, rep)
     rep.attempt(r01_15, prog, rep)
     rep.attempt(r01_16, prog, rep)
+    rep.attempt(r01_17, prog, rep)
+    rep.attempt(r01_18, prog, rep)
     if tier == 'thorough':
         # sweep: the single-writer rule over every scheduler class that
         # inherits the node-list representation
@@ -3374,6 +3974,7 @@ _C = 'agent/scheduler/continuous.py'
 _J = 'agent/scheduler/continuous_jsrun.py'
 _R = 'agent/resource_manager/base.py'
 _N = 'resource_config.py'
+_P = 'pilot.py'
 
 MUTATIONS = [
     dict(name='R01.1 search marks the core it found', rules=('R01.1',), edits=[
@@ -3543,6 +4144,60 @@ MUTATIONS = [
     dict(name='R01.8 local reserve helper copies the node instead of moving it', rules=('R01.8',), edits=[
         (_R, '        if agent_nodes:\n\n            if not rm_info.agent_node_list:\n                for _ in range(agent_nodes):\n                    rm_info.agent_node_list.append(rm_info.node_list.pop())\n\n            assert agent_nodes == len(rm_info.agent_node_list)\n\n        if service_nodes:\n\n            if not rm_info.service_node_list:\n                for _ in range(service_nodes):\n                    rm_info.service_node_list.append(rm_info.node_list.pop())\n\n            assert service_nodes == len(rm_info.service_node_list)\n',
              '        def _reserve(reserved, n_nodes):\n\n            if not n_nodes:\n                return\n\n            if not reserved:\n                for _ in range(n_nodes):\n                    reserved.append(rm_info.node_list[-1])\n\n            assert n_nodes == len(reserved)\n\n        _reserve(rm_info.agent_node_list,   agent_nodes)\n        _reserve(rm_info.service_node_list, service_nodes)\n')]),
+    dict(name='R01.17 occupation update dedented out of the core loop (seed C01-h4)', rules=('R01.17',), edits=[
+        (_N, '                c_idx = self._get_core_index(ro)\n                self.cores[c_idx].occupation += ro.occupation\n',
+             '                c_idx = self._get_core_index(ro)\n            self.cores[c_idx].occupation += ro.occupation\n')]),
+    dict(name='R01.17 Node.allocate_slot: gpu occupation booked after the gpu loop', rules=('R01.17',), edits=[
+        (_N, '                g_idx = self._get_gpu_index(ro)\n                self.gpus[g_idx].occupation += ro.occupation\n',
+             '                g_idx = self._get_gpu_index(ro)\n            self.gpus[g_idx].occupation += ro.occupation\n')]),
+    dict(name='R01.17 _change_slot_states: core state written after the loop over the slot cores', rules=('R01.17',), edits=[
+        (_B, "            for core in slot['cores']:\n                node['cores'][core['index']] = new_state\n",
+             "            for core in slot['cores']:\n                core_idx = core['index']\n            node['cores'][core_idx] = new_state\n")]),
+    dict(name='R01.17 jsrun: core state written once per core map (after the inner loop)', rules=('R01.17',), edits=[
+        (_J, "                for core in core_map:\n                    node['cores'][core] = new_state\n",
+             "                for core in core_map:\n                    pass\n                node['cores'][core] = new_state\n")]),
+    dict(name='R01.17 Node.deallocate_slot: lfs credited once per gpu of the slot', rules=('R01.17',), edits=[
+        (_N, '            for ro in slot.gpus:\n                self.gpus[ro.index].occupation -= ro.occupation\n',
+             '            for ro in slot.gpus:\n                self.gpus[ro.index].occupation -= ro.occupation\n                if self.lfs is not None: self.lfs += slot.lfs\n'),
+        (_N, '            if self.lfs is not None: self.lfs += slot.lfs\n            if self.mem',
+             '            if self.mem')]),
+    dict(name='R01.17 _change_slot_states: mem booked inside the loop over the slot gpus', rules=('R01.17',), edits=[
+        (_B, "            for gpu in slot['gpus']:\n                node['gpus'][gpu['index']] = new_state\n",
+             "            for gpu in slot['gpus']:\n                node['gpus'][gpu['index']] = new_state\n                if slot['mem']:\n                    if new_state == rpc.BUSY:\n                        node['mem'] -= slot['mem']\n                    else:\n                        node['mem'] += slot['mem']\n"),
+        (_B, "            if slot['mem']:\n                if new_state == rpc.BUSY:\n                    node['mem'] -= slot['mem']\n                else:\n                    node['mem'] += slot['mem']\n",
+             '')]),
+    dict(name='R01.18 cache attribute misspelled where the list is kept (seed C01-h6)', rules=('R01.18',), edits=[
+        (_P, '            self._nodelist = NodeList(nodes=nodes)\n            self._nodelist.verify()\n\n        return self._nodelist\n',
+             '            self._node_list = NodeList(nodes=nodes)\n            self._node_list.verify()\n\n        return self._node_list\n')]),
+    dict(name='R01.18 node list rebuilt on every access (guard dropped)', rules=('R01.18',), edits=[
+        (_P, '        if not self._nodelist:\n',
+             '        if True:\n')]),
+    dict(name='R01.18 guard tests the resource details instead of the cache', rules=('R01.18',), edits=[
+        (_P, '        if not self._nodelist:\n',
+             '        if self.resource_details:\n')]),
+    dict(name='R01.18 fresh list returned from a local, never kept', rules=('R01.18',), edits=[
+        (_P, '            self._nodelist = NodeList(nodes=nodes)\n            self._nodelist.verify()\n\n        return self._nodelist\n',
+             '            nodelist = NodeList(nodes=nodes)\n            nodelist.verify()\n            return nodelist\n\n        return self._nodelist\n')]),
+    dict(name='R01.18 _update drops the kept list when resource details arrive', rules=('R01.18',), edits=[
+        (_P, "        if rm_info:\n            del pilot_dict['resources']['rm_info']\n",
+             "        if rm_info:\n            self._nodelist = None\n            del pilot_dict['resources']['rm_info']\n")]),
+    dict(name='R01.18 kept in one attribute, returned from another', rules=('R01.18',), edits=[
+        (_P, '            self._nodelist = NodeList(nodes=nodes)\n            self._nodelist.verify()\n\n        return self._nodelist\n',
+             '            self._nodelist = NodeList(nodes=nodes)\n            self._nodelist.verify()\n\n        return self._node_list\n'),
+        (_P, '        self._nodelist   = None\n',
+             '        self._nodelist   = None\n        self._node_list  = None\n')]),
+    dict(name='R01.5 (C01-r10 shape) gpu pick through the local alias with the guard flipped', rules=('R01.5',), edits=[
+        (_C, "        max_slots = n_slots\n        if lfs_per_slot:\n            max_slots = min(max_slots, int(node['lfs'] // lfs_per_slot))\n        if mem_per_slot:\n            max_slots = min(max_slots, int(node['mem'] // mem_per_slot))\n\n        # find at most `n_slots`\n        loop_core_idx = 0\n        loop_gpu_idx  = 0\n        gpu_shares    = dict()  # GPU shares handed to slots found so far\n        node_idx  = node['index']\n        node_name = node['name']\n\n        while len(slots) < max_slots:\n\n            self._log.debug_9('find resources on %s:%d', node_name, node_idx)\n            self._log.debug_9('node: %s', pprint.pformat(node))\n            self._log.debug_9('cps : %s', cores_per_slot)\n\n            slot  = {'node_name' : node_name,\n                     'node_index': node_idx,\n                     'cores'     : list(),\n                     'gpus'      : list(),\n                     'lfs'       : lfs_per_slot,\n                     'mem'       : mem_per_slot}\n\n            for core_idx,core in enumerate(node['cores'][loop_core_idx:],\n                                                         loop_core_idx):\n                if core == rpc.FREE:\n                    slot['cores'].append(RO(index=core_idx,\n                                            occupation=rpc.BUSY))\n\n                if len(slot['cores']) == cores_per_slot:\n                    break\n\n            loop_core_idx = core_idx + 1\n\n            if len(slot['cores']) < cores_per_slot:\n                self._log.debug_9('not enough cores on %s', node_name)\n                break\n\n            # gpus can be shared, so we need proper resource tracking.  If\n            # a slot requires one or more GPUs, GPU sharing is disabled.\n            if gpus_per_slot >= 1.0:\n\n                tmp = int(gpus_per_slot)\n                if tmp != gpus_per_slot:\n                    raise ValueError('cannot share GPUs>1')\n                gpus_per_slot = tmp\n\n                for gpu_idx,gpu in enumerate(node['gpus'][loop_gpu_idx:],\n                                                          loop_gpu_idx):\n\n                    if gpu == rpc.FREE:\n                        slot['gpus'].append(RO(index=gpu_idx,\n                                               occupation=rpc.BUSY))\n\n                    if len(slot['gpus']) == gpus_per_slot:\n                        break\n\n                loop_gpu_idx = gpu_idx + 1\n\n                if len(slot['gpus']) < gpus_per_slot:\n                    self._log.debug_9('not enough gpus on %s (1)', node_name)\n                    break\n\n            elif gpus_per_slot > 0.0:\n\n                # find a GPU which has sufficient space left\n                for gpu_idx,gpu_occ in enumerate(node['gpus'][loop_gpu_idx:],\n                                                              loop_gpu_idx):\n\n                    # account for shares of this GPU which were handed to\n                    # previously found slots of this request\n                    gpu_used = gpu_occ + gpu_shares.get(gpu_idx, 0.0)\n                    if gpus_per_slot <= rpc.BUSY - gpu_used:\n                        slot['gpus'].append(RO(index=gpu_idx,\n                                               occupation=gpus_per_slot))\n                        gpu_shares[gpu_idx] = gpus_per_slot + \\\n                                              gpu_shares.get(gpu_idx, 0.0)\n                        break\n                    else:\n                        loop_gpu_idx = gpu_idx + 1\n\n                if len(slot['gpus']) < 1:\n",
+             "        limits = [n_slots]\n        if lfs_per_slot:\n            limits.append(int(node['lfs'] // lfs_per_slot))\n        if mem_per_slot:\n            limits.append(int(node['mem'] // mem_per_slot))\n        max_slots = min(limits)\n\n        # find at most `n_slots`\n        loop_core_idx = 0\n        loop_gpu_idx  = 0\n        gpu_shares    = dict()  # GPU shares handed to slots found so far\n        node_idx  = node['index']\n        node_name = node['name']\n\n        def _new_slot():\n            # an empty slot on this node, to be filled with cores and gpus\n            return {'node_name' : node_name,\n                    'node_index': node_idx,\n                    'cores'     : list(),\n                    'gpus'      : list(),\n                    'lfs'       : lfs_per_slot,\n                    'mem'       : mem_per_slot}\n\n        while len(slots) < max_slots:\n\n            self._log.debug_9('find resources on %s:%d', node_name, node_idx)\n            self._log.debug_9('node: %s', pprint.pformat(node))\n            self._log.debug_9('cps : %s', cores_per_slot)\n\n            slot      = _new_slot()\n            slot_gpus = slot['gpus']\n\n            for core_idx,core in enumerate(node['cores'][loop_core_idx:],\n                                                         loop_core_idx):\n                if core == rpc.FREE:\n                    slot['cores'].append(RO(index=core_idx,\n                                            occupation=rpc.BUSY))\n\n                if len(slot['cores']) == cores_per_slot:\n                    break\n\n            loop_core_idx = core_idx + 1\n\n            if len(slot['cores']) < cores_per_slot:\n                self._log.debug_9('not enough cores on %s', node_name)\n                break\n\n            # gpus can be shared, so we need proper resource tracking.  If\n            # a slot requires one or more GPUs, GPU sharing is disabled.\n            if gpus_per_slot >= 1.0:\n\n                tmp = int(gpus_per_slot)\n                if tmp != gpus_per_slot:\n                    raise ValueError('cannot share GPUs>1')\n                gpus_per_slot = tmp\n\n                for gpu_idx,gpu in enumerate(node['gpus'][loop_gpu_idx:],\n                                                          loop_gpu_idx):\n\n                    if gpu != rpc.FREE:\n                        slot_gpus.append(RO(index=gpu_idx,\n                                            occupation=rpc.BUSY))\n\n                    if len(slot_gpus) == gpus_per_slot:\n                        break\n\n                loop_gpu_idx = gpu_idx + 1\n\n                if len(slot_gpus) < gpus_per_slot:\n                    self._log.debug_9('not enough gpus on %s (1)', node_name)\n                    break\n\n            elif gpus_per_slot > 0.0:\n\n                # find a GPU which has sufficient space left\n                for gpu_idx,gpu_occ in enumerate(node['gpus'][loop_gpu_idx:],\n                                                              loop_gpu_idx):\n\n                    # account for shares of this GPU which were handed to\n                    # previously found slots of this request\n                    gpu_shared = gpu_shares.get(gpu_idx, 0.0)\n                    gpu_used   = gpu_occ + gpu_shared\n                    if gpus_per_slot <= rpc.BUSY - gpu_used:\n                        slot_gpus.append(RO(index=gpu_idx,\n                                            occupation=gpus_per_slot))\n                        gpu_shares[gpu_idx] = gpus_per_slot + gpu_shared\n                        break\n\n                    # this GPU is exhausted, also for the slots to come\n                    loop_gpu_idx = gpu_idx + 1\n\n                else:\n                    # search ended without `break`: no GPU had space left\n")]),
+    dict(name='R01.1 (C01-r10 shape) local alias of the node gpu list is appended to', rules=('R01.1',), edits=[
+        (_C, "        max_slots = n_slots\n        if lfs_per_slot:\n            max_slots = min(max_slots, int(node['lfs'] // lfs_per_slot))\n        if mem_per_slot:\n            max_slots = min(max_slots, int(node['mem'] // mem_per_slot))\n\n        # find at most `n_slots`\n        loop_core_idx = 0\n        loop_gpu_idx  = 0\n        gpu_shares    = dict()  # GPU shares handed to slots found so far\n        node_idx  = node['index']\n        node_name = node['name']\n\n        while len(slots) < max_slots:\n\n            self._log.debug_9('find resources on %s:%d', node_name, node_idx)\n            self._log.debug_9('node: %s', pprint.pformat(node))\n            self._log.debug_9('cps : %s', cores_per_slot)\n\n            slot  = {'node_name' : node_name,\n                     'node_index': node_idx,\n                     'cores'     : list(),\n                     'gpus'      : list(),\n                     'lfs'       : lfs_per_slot,\n                     'mem'       : mem_per_slot}\n\n            for core_idx,core in enumerate(node['cores'][loop_core_idx:],\n                                                         loop_core_idx):\n                if core == rpc.FREE:\n                    slot['cores'].append(RO(index=core_idx,\n                                            occupation=rpc.BUSY))\n\n                if len(slot['cores']) == cores_per_slot:\n                    break\n\n            loop_core_idx = core_idx + 1\n\n            if len(slot['cores']) < cores_per_slot:\n                self._log.debug_9('not enough cores on %s', node_name)\n                break\n\n            # gpus can be shared, so we need proper resource tracking.  If\n            # a slot requires one or more GPUs, GPU sharing is disabled.\n            if gpus_per_slot >= 1.0:\n\n                tmp = int(gpus_per_slot)\n                if tmp != gpus_per_slot:\n                    raise ValueError('cannot share GPUs>1')\n                gpus_per_slot = tmp\n\n                for gpu_idx,gpu in enumerate(node['gpus'][loop_gpu_idx:],\n                                                          loop_gpu_idx):\n\n                    if gpu == rpc.FREE:\n                        slot['gpus'].append(RO(index=gpu_idx,\n                                               occupation=rpc.BUSY))\n\n                    if len(slot['gpus']) == gpus_per_slot:\n                        break\n\n                loop_gpu_idx = gpu_idx + 1\n\n                if len(slot['gpus']) < gpus_per_slot:\n                    self._log.debug_9('not enough gpus on %s (1)', node_name)\n                    break\n\n            elif gpus_per_slot > 0.0:\n\n                # find a GPU which has sufficient space left\n                for gpu_idx,gpu_occ in enumerate(node['gpus'][loop_gpu_idx:],\n                                                              loop_gpu_idx):\n\n                    # account for shares of this GPU which were handed to\n                    # previously found slots of this request\n                    gpu_used = gpu_occ + gpu_shares.get(gpu_idx, 0.0)\n                    if gpus_per_slot <= rpc.BUSY - gpu_used:\n                        slot['gpus'].append(RO(index=gpu_idx,\n                                               occupation=gpus_per_slot))\n                        gpu_shares[gpu_idx] = gpus_per_slot + \\\n                                              gpu_shares.get(gpu_idx, 0.0)\n                        break\n                    else:\n                        loop_gpu_idx = gpu_idx + 1\n\n                if len(slot['gpus']) < 1:\n",
+             "        limits = [n_slots]\n        if lfs_per_slot:\n            limits.append(int(node['lfs'] // lfs_per_slot))\n        if mem_per_slot:\n            limits.append(int(node['mem'] // mem_per_slot))\n        max_slots = min(limits)\n\n        # find at most `n_slots`\n        loop_core_idx = 0\n        loop_gpu_idx  = 0\n        gpu_shares    = dict()  # GPU shares handed to slots found so far\n        node_idx  = node['index']\n        node_name = node['name']\n\n        def _new_slot():\n            # an empty slot on this node, to be filled with cores and gpus\n            return {'node_name' : node_name,\n                    'node_index': node_idx,\n                    'cores'     : list(),\n                    'gpus'      : list(),\n                    'lfs'       : lfs_per_slot,\n                    'mem'       : mem_per_slot}\n\n        while len(slots) < max_slots:\n\n            self._log.debug_9('find resources on %s:%d', node_name, node_idx)\n            self._log.debug_9('node: %s', pprint.pformat(node))\n            self._log.debug_9('cps : %s', cores_per_slot)\n\n            slot      = _new_slot()\n            slot_gpus = node['gpus']\n\n            for core_idx,core in enumerate(node['cores'][loop_core_idx:],\n                                                         loop_core_idx):\n                if core == rpc.FREE:\n                    slot['cores'].append(RO(index=core_idx,\n                                            occupation=rpc.BUSY))\n\n                if len(slot['cores']) == cores_per_slot:\n                    break\n\n            loop_core_idx = core_idx + 1\n\n            if len(slot['cores']) < cores_per_slot:\n                self._log.debug_9('not enough cores on %s', node_name)\n                break\n\n            # gpus can be shared, so we need proper resource tracking.  If\n            # a slot requires one or more GPUs, GPU sharing is disabled.\n            if gpus_per_slot >= 1.0:\n\n                tmp = int(gpus_per_slot)\n                if tmp != gpus_per_slot:\n                    raise ValueError('cannot share GPUs>1')\n                gpus_per_slot = tmp\n\n                for gpu_idx,gpu in enumerate(node['gpus'][loop_gpu_idx:],\n                                                          loop_gpu_idx):\n\n                    if gpu == rpc.FREE:\n                        slot_gpus.append(RO(index=gpu_idx,\n                                            occupation=rpc.BUSY))\n\n                    if len(slot_gpus) == gpus_per_slot:\n                        break\n\n                loop_gpu_idx = gpu_idx + 1\n\n                if len(slot_gpus) < gpus_per_slot:\n                    self._log.debug_9('not enough gpus on %s (1)', node_name)\n                    break\n\n            elif gpus_per_slot > 0.0:\n\n                # find a GPU which has sufficient space left\n                for gpu_idx,gpu_occ in enumerate(node['gpus'][loop_gpu_idx:],\n                                                              loop_gpu_idx):\n\n                    # account for shares of this GPU which were handed to\n                    # previously found slots of this request\n                    gpu_shared = gpu_shares.get(gpu_idx, 0.0)\n                    gpu_used   = gpu_occ + gpu_shared\n                    if gpus_per_slot <= rpc.BUSY - gpu_used:\n                        slot_gpus.append(RO(index=gpu_idx,\n                                            occupation=gpus_per_slot))\n                        gpu_shares[gpu_idx] = gpus_per_slot + gpu_shared\n                        break\n\n                    # this GPU is exhausted, also for the slots to come\n                    loop_gpu_idx = gpu_idx + 1\n\n                else:\n                    # search ended without `break`: no GPU had space left\n")]),
+    dict(name='R01.10 (C03-r10 shape) hoisted lookup key taken from another slot field', rules=('R01.10',), edits=[
+        (_B, "        # for node_name, node_index, cores, gpus in slots['ranks']:\n        for slot in slots:\n\n            # Find the entry in the slots list\n\n            # TODO: [Optimization] Assuming 'node_index' is the ID of the node,\n            #       it seems a bit wasteful to have to look at all of the nodes\n            #       available for use if at most one node can have that uid.\n            #       Maybe it would be worthwhile to simply keep a list of nodes\n            #       that we would read, and keep a dictionary that maps the uid\n            #       of the node to the location on the list?\n\n            node = None\n            node_found = False\n            for node in self.nodes:\n                if node['index'] == slot['node_index']:\n                    node_found = True\n                    break\n\n            if not node_found:\n                raise RuntimeError('inconsistent node information')\n\n            # iterate over cores/gpus in the slot, and update state\n            for core in slot['cores']:\n                node['cores'][core['index']] = new_state\n\n            for gpu in slot['gpus']:\n                node['gpus'][gpu['index']] = new_state\n\n            if slot['lfs']:\n                if new_state == rpc.BUSY:\n                    node['lfs'] -= slot['lfs']\n                else:\n                    node['lfs'] += slot['lfs']\n\n            if slot['mem']:\n                if new_state == rpc.BUSY:\n                    node['mem'] -= slot['mem']\n                else:\n                    node['mem'] += slot['mem']\n",
+             "        # `lfs` and `mem` are amounts: they are taken from the node when the\n        # slot becomes BUSY, and are given back to the node otherwise\n        sign = -1 if new_state == rpc.BUSY else 1\n\n        # for node_name, node_index, cores, gpus in slots['ranks']:\n        for slot in slots:\n\n            # Find the entry in the slots list\n\n            # TODO: [Optimization] Assuming 'node_index' is the ID of the node,\n            #       it seems a bit wasteful to have to look at all of the nodes\n            #       available for use if at most one node can have that uid.\n            #       Maybe it would be worthwhile to simply keep a list of nodes\n            #       that we would read, and keep a dictionary that maps the uid\n            #       of the node to the location on the list?\n\n            node_index = slot['lfs']\n            for node in self.nodes:\n                if node['index'] == node_index:\n                    break\n            else:\n                raise RuntimeError('inconsistent node information')\n\n            # iterate over cores/gpus in the slot, and update state\n            for kind in ('cores', 'gpus'):\n                for ro in slot[kind]:\n                    node[kind][ro['index']] = new_state\n\n            for kind in ('lfs', 'mem'):\n                amount = slot[kind]\n                if amount:\n                    node[kind] += sign * amount\n")]),
+    dict(name='R01.17 (C03-r10 shape) key loop: state written after the loop over the slot entries', rules=('R01.17',), edits=[
+        (_B, "        # for node_name, node_index, cores, gpus in slots['ranks']:\n        for slot in slots:\n\n            # Find the entry in the slots list\n\n            # TODO: [Optimization] Assuming 'node_index' is the ID of the node,\n            #       it seems a bit wasteful to have to look at all of the nodes\n            #       available for use if at most one node can have that uid.\n            #       Maybe it would be worthwhile to simply keep a list of nodes\n            #       that we would read, and keep a dictionary that maps the uid\n            #       of the node to the location on the list?\n\n            node = None\n            node_found = False\n            for node in self.nodes:\n                if node['index'] == slot['node_index']:\n                    node_found = True\n                    break\n\n            if not node_found:\n                raise RuntimeError('inconsistent node information')\n\n            # iterate over cores/gpus in the slot, and update state\n            for core in slot['cores']:\n                node['cores'][core['index']] = new_state\n\n            for gpu in slot['gpus']:\n                node['gpus'][gpu['index']] = new_state\n\n            if slot['lfs']:\n                if new_state == rpc.BUSY:\n                    node['lfs'] -= slot['lfs']\n                else:\n                    node['lfs'] += slot['lfs']\n\n            if slot['mem']:\n                if new_state == rpc.BUSY:\n                    node['mem'] -= slot['mem']\n                else:\n                    node['mem'] += slot['mem']\n",
+             "        # `lfs` and `mem` are amounts: they are taken from the node when the\n        # slot becomes BUSY, and are given back to the node otherwise\n        sign = -1 if new_state == rpc.BUSY else 1\n\n        # for node_name, node_index, cores, gpus in slots['ranks']:\n        for slot in slots:\n\n            # Find the entry in the slots list\n\n            # TODO: [Optimization] Assuming 'node_index' is the ID of the node,\n            #       it seems a bit wasteful to have to look at all of the nodes\n            #       available for use if at most one node can have that uid.\n            #       Maybe it would be worthwhile to simply keep a list of nodes\n            #       that we would read, and keep a dictionary that maps the uid\n            #       of the node to the location on the list?\n\n            node_index = slot['node_index']\n            for node in self.nodes:\n                if node['index'] == node_index:\n                    break\n            else:\n                raise RuntimeError('inconsistent node information')\n\n            # iterate over cores/gpus in the slot, and update state\n            for kind in ('cores', 'gpus'):\n                for ro in slot[kind]:\n                    ro_idx = ro['index']\n                node[kind][ro_idx] = new_state\n\n            for kind in ('lfs', 'mem'):\n                amount = slot[kind]\n                if amount:\n                    node[kind] += sign * amount\n")]),
 ]
 
 SILENT = [
@@ -3667,4 +4322,48 @@ SILENT = [
     dict(name='agent/service reservation through one local helper (seed C18-r7)', edits=[
         (_R, '        if agent_nodes:\n\n            if not rm_info.agent_node_list:\n                for _ in range(agent_nodes):\n                    rm_info.agent_node_list.append(rm_info.node_list.pop())\n\n            assert agent_nodes == len(rm_info.agent_node_list)\n\n        if service_nodes:\n\n            if not rm_info.service_node_list:\n                for _ in range(service_nodes):\n                    rm_info.service_node_list.append(rm_info.node_list.pop())\n\n            assert service_nodes == len(rm_info.service_node_list)\n',
              '        def _reserve(reserved, n_nodes):\n\n            if not n_nodes:\n                return\n\n            if not reserved:\n                for _ in range(n_nodes):\n                    reserved.append(rm_info.node_list.pop())\n\n            assert n_nodes == len(reserved)\n\n        _reserve(rm_info.agent_node_list,   agent_nodes)\n        _reserve(rm_info.service_node_list, service_nodes)\n')]),
+    dict(name='Node.allocate_slot: core index computed inline', edits=[
+        (_N, '                c_idx = self._get_core_index(ro)\n                self.cores[c_idx].occupation += ro.occupation\n',
+             '                self.cores[self._get_core_index(ro)].occupation += ro.occupation\n')]),
+    dict(name='Node.allocate_slot: gpu bookings collected first, applied in a second loop', edits=[
+        (_N, '            for ro in gpus:\n                g_idx = self._get_gpu_index(ro)\n                self.gpus[g_idx].occupation += ro.occupation\n',
+             '            todo = [(self._get_gpu_index(ro), ro.occupation) for ro in gpus]\n            for g_idx, occ in todo:\n                self.gpus[g_idx].occupation += occ\n')]),
+    dict(name='Node.deallocate_slot: cores released by position, renamed locals', edits=[
+        (_N, '            for ro in slot.cores:\n                self.cores[ro.index].occupation -= ro.occupation\n',
+             '            held = slot.cores\n            for pos in range(len(held)):\n                item = held[pos]\n                self.cores[item.index].occupation -= item.occupation\n')]),
+    dict(name='_change_slot_states: gpu index hoisted into a local inside the loop', edits=[
+        (_B, "            for gpu in slot['gpus']:\n                node['gpus'][gpu['index']] = new_state\n",
+             "            for gpu in slot['gpus']:\n                gpu_idx = gpu['index']\n                node['gpus'][gpu_idx] = new_state\n")]),
+    dict(name='_change_slot_states: lfs/mem booked inside the node lookup loop (match branch)', edits=[
+        (_B, "                if node['index'] == slot['node_index']:\n                    node_found = True\n                    break\n",
+             "                if node['index'] == slot['node_index']:\n                    node_found = True\n                    if slot['lfs']:\n                        if new_state == rpc.BUSY:\n                            node['lfs'] -= slot['lfs']\n                        else:\n                            node['lfs'] += slot['lfs']\n                    break\n"),
+        (_B, "            if slot['lfs']:\n                if new_state == rpc.BUSY:\n                    node['lfs'] -= slot['lfs']\n                else:\n                    node['lfs'] += slot['lfs']\n\n",
+             '')]),
+    dict(name='limits list, local slot closure, alias of the slot gpu list, for/else (seed C01-r10)', edits=[
+        (_C, "        max_slots = n_slots\n        if lfs_per_slot:\n            max_slots = min(max_slots, int(node['lfs'] // lfs_per_slot))\n        if mem_per_slot:\n            max_slots = min(max_slots, int(node['mem'] // mem_per_slot))\n\n        # find at most `n_slots`\n        loop_core_idx = 0\n        loop_gpu_idx  = 0\n        gpu_shares    = dict()  # GPU shares handed to slots found so far\n        node_idx  = node['index']\n        node_name = node['name']\n\n        while len(slots) < max_slots:\n\n            self._log.debug_9('find resources on %s:%d', node_name, node_idx)\n            self._log.debug_9('node: %s', pprint.pformat(node))\n            self._log.debug_9('cps : %s', cores_per_slot)\n\n            slot  = {'node_name' : node_name,\n                     'node_index': node_idx,\n                     'cores'     : list(),\n                     'gpus'      : list(),\n                     'lfs'       : lfs_per_slot,\n                     'mem'       : mem_per_slot}\n\n            for core_idx,core in enumerate(node['cores'][loop_core_idx:],\n                                                         loop_core_idx):\n                if core == rpc.FREE:\n                    slot['cores'].append(RO(index=core_idx,\n                                            occupation=rpc.BUSY))\n\n                if len(slot['cores']) == cores_per_slot:\n                    break\n\n            loop_core_idx = core_idx + 1\n\n            if len(slot['cores']) < cores_per_slot:\n                self._log.debug_9('not enough cores on %s', node_name)\n                break\n\n            # gpus can be shared, so we need proper resource tracking.  If\n            # a slot requires one or more GPUs, GPU sharing is disabled.\n            if gpus_per_slot >= 1.0:\n\n                tmp = int(gpus_per_slot)\n                if tmp != gpus_per_slot:\n                    raise ValueError('cannot share GPUs>1')\n                gpus_per_slot = tmp\n\n                for gpu_idx,gpu in enumerate(node['gpus'][loop_gpu_idx:],\n                                                          loop_gpu_idx):\n\n                    if gpu == rpc.FREE:\n                        slot['gpus'].append(RO(index=gpu_idx,\n                                               occupation=rpc.BUSY))\n\n                    if len(slot['gpus']) == gpus_per_slot:\n                        break\n\n                loop_gpu_idx = gpu_idx + 1\n\n                if len(slot['gpus']) < gpus_per_slot:\n                    self._log.debug_9('not enough gpus on %s (1)', node_name)\n                    break\n\n            elif gpus_per_slot > 0.0:\n\n                # find a GPU which has sufficient space left\n                for gpu_idx,gpu_occ in enumerate(node['gpus'][loop_gpu_idx:],\n                                                              loop_gpu_idx):\n\n                    # account for shares of this GPU which were handed to\n                    # previously found slots of this request\n                    gpu_used = gpu_occ + gpu_shares.get(gpu_idx, 0.0)\n                    if gpus_per_slot <= rpc.BUSY - gpu_used:\n                        slot['gpus'].append(RO(index=gpu_idx,\n                                               occupation=gpus_per_slot))\n                        gpu_shares[gpu_idx] = gpus_per_slot + \\\n                                              gpu_shares.get(gpu_idx, 0.0)\n                        break\n                    else:\n                        loop_gpu_idx = gpu_idx + 1\n\n                if len(slot['gpus']) < 1:\n",
+             "        limits = [n_slots]\n        if lfs_per_slot:\n            limits.append(int(node['lfs'] // lfs_per_slot))\n        if mem_per_slot:\n            limits.append(int(node['mem'] // mem_per_slot))\n        max_slots = min(limits)\n\n        # find at most `n_slots`\n        loop_core_idx = 0\n        loop_gpu_idx  = 0\n        gpu_shares    = dict()  # GPU shares handed to slots found so far\n        node_idx  = node['index']\n        node_name = node['name']\n\n        def _new_slot():\n            # an empty slot on this node, to be filled with cores and gpus\n            return {'node_name' : node_name,\n                    'node_index': node_idx,\n                    'cores'     : list(),\n                    'gpus'      : list(),\n                    'lfs'       : lfs_per_slot,\n                    'mem'       : mem_per_slot}\n\n        while len(slots) < max_slots:\n\n            self._log.debug_9('find resources on %s:%d', node_name, node_idx)\n            self._log.debug_9('node: %s', pprint.pformat(node))\n            self._log.debug_9('cps : %s', cores_per_slot)\n\n            slot      = _new_slot()\n            slot_gpus = slot['gpus']\n\n            for core_idx,core in enumerate(node['cores'][loop_core_idx:],\n                                                         loop_core_idx):\n                if core == rpc.FREE:\n                    slot['cores'].append(RO(index=core_idx,\n                                            occupation=rpc.BUSY))\n\n                if len(slot['cores']) == cores_per_slot:\n                    break\n\n            loop_core_idx = core_idx + 1\n\n            if len(slot['cores']) < cores_per_slot:\n                self._log.debug_9('not enough cores on %s', node_name)\n                break\n\n            # gpus can be shared, so we need proper resource tracking.  If\n            # a slot requires one or more GPUs, GPU sharing is disabled.\n            if gpus_per_slot >= 1.0:\n\n                tmp = int(gpus_per_slot)\n                if tmp != gpus_per_slot:\n                    raise ValueError('cannot share GPUs>1')\n                gpus_per_slot = tmp\n\n                for gpu_idx,gpu in enumerate(node['gpus'][loop_gpu_idx:],\n                                                          loop_gpu_idx):\n\n                    if gpu == rpc.FREE:\n                        slot_gpus.append(RO(index=gpu_idx,\n                                            occupation=rpc.BUSY))\n\n                    if len(slot_gpus) == gpus_per_slot:\n                        break\n\n                loop_gpu_idx = gpu_idx + 1\n\n                if len(slot_gpus) < gpus_per_slot:\n                    self._log.debug_9('not enough gpus on %s (1)', node_name)\n                    break\n\n            elif gpus_per_slot > 0.0:\n\n                # find a GPU which has sufficient space left\n                for gpu_idx,gpu_occ in enumerate(node['gpus'][loop_gpu_idx:],\n                                                              loop_gpu_idx):\n\n                    # account for shares of this GPU which were handed to\n                    # previously found slots of this request\n                    gpu_shared = gpu_shares.get(gpu_idx, 0.0)\n                    gpu_used   = gpu_occ + gpu_shared\n                    if gpus_per_slot <= rpc.BUSY - gpu_used:\n                        slot_gpus.append(RO(index=gpu_idx,\n                                            occupation=gpus_per_slot))\n                        gpu_shares[gpu_idx] = gpus_per_slot + gpu_shared\n                        break\n\n                    # this GPU is exhausted, also for the slots to come\n                    loop_gpu_idx = gpu_idx + 1\n\n                else:\n                    # search ended without `break`: no GPU had space left\n")]),
+    dict(name='node lookup as for/else with hoisted node_index, kinds in key loops, sign factor (seed C03-r10)', edits=[
+        (_B, "        # for node_name, node_index, cores, gpus in slots['ranks']:\n        for slot in slots:\n\n            # Find the entry in the slots list\n\n            # TODO: [Optimization] Assuming 'node_index' is the ID of the node,\n            #       it seems a bit wasteful to have to look at all of the nodes\n            #       available for use if at most one node can have that uid.\n            #       Maybe it would be worthwhile to simply keep a list of nodes\n            #       that we would read, and keep a dictionary that maps the uid\n            #       of the node to the location on the list?\n\n            node = None\n            node_found = False\n            for node in self.nodes:\n                if node['index'] == slot['node_index']:\n                    node_found = True\n                    break\n\n            if not node_found:\n                raise RuntimeError('inconsistent node information')\n\n            # iterate over cores/gpus in the slot, and update state\n            for core in slot['cores']:\n                node['cores'][core['index']] = new_state\n\n            for gpu in slot['gpus']:\n                node['gpus'][gpu['index']] = new_state\n\n            if slot['lfs']:\n                if new_state == rpc.BUSY:\n                    node['lfs'] -= slot['lfs']\n                else:\n                    node['lfs'] += slot['lfs']\n\n            if slot['mem']:\n                if new_state == rpc.BUSY:\n                    node['mem'] -= slot['mem']\n                else:\n                    node['mem'] += slot['mem']\n",
+             "        # `lfs` and `mem` are amounts: they are taken from the node when the\n        # slot becomes BUSY, and are given back to the node otherwise\n        sign = -1 if new_state == rpc.BUSY else 1\n\n        # for node_name, node_index, cores, gpus in slots['ranks']:\n        for slot in slots:\n\n            # Find the entry in the slots list\n\n            # TODO: [Optimization] Assuming 'node_index' is the ID of the node,\n            #       it seems a bit wasteful to have to look at all of the nodes\n            #       available for use if at most one node can have that uid.\n            #       Maybe it would be worthwhile to simply keep a list of nodes\n            #       that we would read, and keep a dictionary that maps the uid\n            #       of the node to the location on the list?\n\n            node_index = slot['node_index']\n            for node in self.nodes:\n                if node['index'] == node_index:\n                    break\n            else:\n                raise RuntimeError('inconsistent node information')\n\n            # iterate over cores/gpus in the slot, and update state\n            for kind in ('cores', 'gpus'):\n                for ro in slot[kind]:\n                    node[kind][ro['index']] = new_state\n\n            for kind in ('lfs', 'mem'):\n                amount = slot[kind]\n                if amount:\n                    node[kind] += sign * amount\n")]),
+    dict(name='Pilot.nodelist: cache guard spelled `is None`', edits=[
+        (_P, '        if not self._nodelist:\n',
+             '        if self._nodelist is None:\n')]),
+    dict(name='Pilot.nodelist: early return of the kept list, list built into a local first', edits=[
+        (_P, "        if not self._nodelist:\n\n            resource_details = self.resource_details\n            if not resource_details:\n                return None\n\n            numa_domain_map = resource_details.get('numa_domain_map')\n            node_list       = resource_details.get('node_list')\n\n            if not node_list:\n                return None\n\n            # only create NUMA resources if a numa domain map is available\n            if not numa_domain_map:\n                nodes = [Node(node) for node in node_list]\n            else:\n                nodes = [NumaNode(node, numa_domain_map)\n                                       for node in node_list]\n\n            self._nodelist = NodeList(nodes=nodes)\n            self._nodelist.verify()\n\n        return self._nodelist\n",
+             "        if self._nodelist:\n            return self._nodelist\n\n        resource_details = self.resource_details\n        if not resource_details:\n            return None\n\n        numa_domain_map = resource_details.get('numa_domain_map')\n        node_list       = resource_details.get('node_list')\n\n        if not node_list:\n            return None\n\n        if not numa_domain_map:\n            nodes = [Node(node) for node in node_list]\n        else:\n            nodes = [NumaNode(node, numa_domain_map)\n                                   for node in node_list]\n\n        fresh = NodeList(nodes=nodes)\n        fresh.verify()\n        self._nodelist = fresh\n\n        return fresh\n")]),
+    dict(name='Pilot.nodelist: cache attribute renamed everywhere', edits=[
+        (_P, '        self._nodelist   = None\n',
+             '        self._nl_cache   = None\n'),
+        (_P, '        if not self._nodelist:\n',
+             '        if not self._nl_cache:\n'),
+        (_P, '            self._nodelist = NodeList(nodes=nodes)\n            self._nodelist.verify()\n\n        return self._nodelist\n',
+             '            self._nl_cache = NodeList(nodes=nodes)\n            self._nl_cache.verify()\n\n        return self._nl_cache\n')]),
+    dict(name='Pilot.nodelist: construction and verification in a helper method', edits=[
+        (_P, "        if not self._nodelist:\n\n            resource_details = self.resource_details\n            if not resource_details:\n                return None\n\n            numa_domain_map = resource_details.get('numa_domain_map')\n            node_list       = resource_details.get('node_list')\n\n            if not node_list:\n                return None\n\n            # only create NUMA resources if a numa domain map is available\n            if not numa_domain_map:\n                nodes = [Node(node) for node in node_list]\n            else:\n                nodes = [NumaNode(node, numa_domain_map)\n                                       for node in node_list]\n\n            self._nodelist = NodeList(nodes=nodes)\n            self._nodelist.verify()\n\n        return self._nodelist\n",
+             "        if not self._nodelist:\n\n            resource_details = self.resource_details\n            if not resource_details:\n                return None\n\n            numa_domain_map = resource_details.get('numa_domain_map')\n            node_list       = resource_details.get('node_list')\n\n            if not node_list:\n                return None\n\n            # only create NUMA resources if a numa domain map is available\n            if not numa_domain_map:\n                nodes = [Node(node) for node in node_list]\n            else:\n                nodes = [NumaNode(node, numa_domain_map)\n                                       for node in node_list]\n\n            self._nodelist = self._make_nodelist(nodes)\n\n        return self._nodelist\n"),
+        (_P, '    # -------------------------------------------------------------------------\n    #\n    @property\n    def nodelist(self):\n',
+             '    @staticmethod\n    def _make_nodelist(nodes):\n        made = NodeList(nodes=nodes)\n        made.verify()\n        return made\n\n    # -------------------------------------------------------------------------\n    #\n    @property\n    def nodelist(self):\n')]),
+    dict(name='Pilot.nodelist: cache read through a local and getattr', edits=[
+        (_P, '        if not self._nodelist:\n',
+             "        kept = getattr(self, '_nodelist', None)\n        if not kept:\n")]),
 ]
